@@ -209,18 +209,27 @@ def run(P, rep, tier):
     # ---- R2 handler table ---------------------------------------------------------------------
     r2 = rep.rule('C05-R2', 'DOM reader handler table is exhaustive over the 9 section ids', reference=9)
     parse = dr.find_method('parse')
-    table = None
-    for n in walk_no_nested(parse.node):
-        if isinstance(n, ast.Assign) and isinstance(n.value, (ast.Dict, ast.DictComp)):
-            if isinstance(n.value, ast.Dict):
+    if parse is None:
+        raise AnalysisError('DiffXDOMReader.parse not found (anchor vanished)')
+    # the handler table: a dict display keyed by section ids, wherever the class builds it
+    # (in parse itself, in a helper method, or as a class attribute)
+    tables = []
+    holders = [(f, f.node) for c in dr.repo_mro() for f in c.methods.values()]
+    for c in dr.repo_mro():
+        for an, expr in c.attrs.items():
+            holders.append((parse, expr))
+    for f, root in holders:
+        for n in (walk_no_nested(root) if isinstance(root, (ast.FunctionDef, ast.AsyncFunctionDef)) else ast.walk(root)):
+            if isinstance(n, ast.Dict) and n.keys and all(k is not None for k in n.keys):
                 try:
-                    keys = [P.fold(k, parse.module, dr) for k in n.value.keys]
+                    keys = [P.fold(k, f.module, dr) for k in n.keys]
                 except Unfoldable:
                     continue
                 if any(k in SPEC_IDS for k in keys):
-                    table = (keys, n.value.values)
-    if table is None:
-        raise AnalysisError('section handler table not found in DiffXDOMReader.parse')
+                    tables.append((keys, n.values))
+    if len(tables) != 1:
+        raise AnalysisError('expected exactly one section handler table in DiffXDOMReader, found %d (idiom not recognised)' % len(tables))
+    table = tables[0]
     vss = P.fold_module_const('pydiffx.sections', 'VALID_SECTION_STATES')
     for sid in SPEC_IDS:
         if sid in table[0]:
